@@ -114,11 +114,12 @@ UNIT_TRUSTED["packet_nlri"] = [
     "prelude p_nlri: a generic `T: io::Read` source is a stream with `left()` bytes to go (external trait extension); byteorder read_u8 / read_exact and the `for b in addr.iter_mut().take(n) { *b = c.read_u8()?; }` idiom are R11 helpers: a read either fails or consumes exactly what it returns; precondition left() <= 65535 (the source is part of a BGP message)",
     "MplsLabelStack::decode is NOT verified: assumed to return at least one label, as many as the peer sends (no upper bound — that is the point), consuming 3 bytes each; encoded_len = 3 * depth; RouteDistinguisher::decode, Ipv4Addr / Ipv6Addr::from(octets) total; u8::div_ceil as defined",
     "MUP decoders (packet/src/mup.rs: MupNlri::decode and the four route-type decoders, addr_bit_len, decode_ip, decode_prefix): slice range indexing `&data[a..b]` is rewritten (R18) to helpers whose `requires a <= b <= len` is Rust's bounds check; `x[..n].copy_from_slice(..)` and byteorder's slice reads likewise; integer constants in match patterns are replaced by their (compile-time checked) values",
-    "NOT covered: the other per-family NLRI decoders (labeled unicast truncates the same bit count with `as u8` without panicking — a mis-parse, by inspection; EVPN, Flowspec, BGP-LS, SR-policy, RTC), decode_nlri_list's loop",
+    "Flowspec decoders (packet/src/flowspec.rs: Op::decode, decode_ops, the prefix decoders, read_nlri_len, both component decoders, the four NLRI decoders): the stream model also carries `total()`; the inner io::Cursor over the NLRI bytes is such a stream (Cursor::new / position as R11 helpers: position + left == total); `vec![0u8; n]`, the RD byte loop and the formatted error are outlined",
+    "NOT covered: the other per-family NLRI decoders (labeled unicast truncates the same bit count with `as u8` without panicking — a mis-parse, by inspection; EVPN, BGP-LS; SR-policy and RTC are straight-line reads), decode_nlri_list's loop",
 ]
 
 # minimum number of functions that must produce obligations / of must-fail twins that must run
-FLOORS = {"daemon_fsm": 30, "daemon_gr": 4, "daemon_peer_tx": 9, "table_cmp": 20, "packet_validate": 1, "packet_parse": 1, "table_rpki": 5, "table_policy": 6, "daemon_export": 11, "packet_bmp": 6, "packet_mrt": 8, "packet_aspath": 10, "packet_encode": 4, "packet_nlri": 9}
+FLOORS = {"daemon_fsm": 30, "daemon_gr": 4, "daemon_peer_tx": 9, "table_cmp": 20, "packet_validate": 1, "packet_parse": 1, "table_rpki": 5, "table_policy": 6, "daemon_export": 11, "packet_bmp": 6, "packet_mrt": 8, "packet_aspath": 10, "packet_encode": 4, "packet_nlri": 20}
 TWIN_FLOORS = {"daemon_fsm": 8, "daemon_gr": 3, "daemon_peer_tx": 2, "table_cmp": 4, "packet_validate": 1, "packet_parse": 1, "table_rpki": 1, "table_policy": 1, "daemon_export": 1, "packet_bmp": 1, "packet_mrt": 1, "packet_aspath": 1, "packet_encode": 1, "packet_nlri": 1}
 
 PLAN = {
